@@ -47,6 +47,10 @@ FILTERS = [
                                               "filtered": {"weighted_n": 1.0}, "unfiltered": {"weighted_n": 4.0}}, 0.25),
     ("cat_date_flag_null_stats_zero_den", {"filter_stats": {"is_cat_date": True, "filtered_complete": {"weighted": None}},
                                            "filtered": {"weighted_n": 1.0}, "unfiltered": {"weighted_n": 0}}, NANF),
+    ("new_unweighted_only_then_old", {"filter_stats": {"filtered_complete": {"unweighted": {"selected": 19, "other": 14}}},
+                                      "filtered": {"weighted_n": 1.0}, "unfiltered": {"weighted_n": 4.0}}, 0.25),
+    ("new_unweighted_only_weighted_null", {"filter_stats": {"filtered_complete": {"weighted": None,
+                                                                                   "unweighted": {"selected": 19, "other": 14}}}}, 1.0),
     ("new_empty_then_old", {"filter_stats": {"filtered_complete": {}},
                             "filtered": {"weighted_n": 1.0}, "unfiltered": {"weighted_n": 4.0}}, 0.25),
 ]
